@@ -118,16 +118,35 @@ def process_level(res, tier):
         rb = sub(cb) if ra.returncode == 0 and os.path.exists(oa + ".cfg") else None
         da = pl.h5(oa, maxv=64) if ra.returncode == 0 else None
         db = pl.h5(ob, maxv=64) if rb is not None and rb.returncode == 0 else None
+        # second generation: the run is repeated FROM ITS OWN saved .cfg, under the same output name, with one option overridden on the command line
+        # (a parameter scan that reuses the file): the .cfg next to the new results must describe the new run
+        gen2 = None
+        if rb is not None and rb.returncode == 0 and not name.startswith("pair "):
+            ovr = ["--outstep", "3"] if "rotations" in name else ["--rotations", "0.75"]
+            oc = os.path.join(wd, "c_%d.h5" % idx)
+            cc = [exe, "--config", oa + ".cfg", "-o", oa] + ovr
+            rc2 = sub(cc)
+            cd = [exe, "--config", oa + ".cfg", "-o", oc]
+            rd = sub(cd) if rc2.returncode == 0 else None
+            dc2 = pl.h5(oa, maxv=64) if rc2.returncode == 0 else None
+            dd = pl.h5(oc, maxv=64) if rd is not None and rd.returncode == 0 else None
+            gen2 = (" ".join(cc), " ".join(cd), rc2, rd, dc2, dd)
+            for suf in ("", ".cfg", ".log"):
+                try:
+                    os.remove(oc + suf)
+                except OSError:
+                    pass
         for p in (oa, ob):
             for suf in ("", ".cfg", ".log"):
                 try:
                     os.remove(p + suf)
                 except OSError:
                     pass
-        return name, " ".join(ca), " ".join(cb), ra, rb, da, db
+        return name, " ".join(ca), " ".join(cb), ra, rb, da, db, gen2
 
     unrunnable = []
-    for name, ca, cb, ra, rb, da, db in pl.pmap(do, list(enumerate(cases + cfgcases))):
+    ngen2 = 0
+    for name, ca, cb, ra, rb, da, db, gen2 in pl.pmap(do, list(enumerate(cases + cfgcases))):
         opt = name.split()[1].split("#")[0] if " " in name else "default"
         rp = dict(cmd=ca, rerun=cb)
         if (ra.returncode != 0 or da is None or "error" in da) and name.startswith("pair "):
@@ -144,8 +163,22 @@ def process_level(res, tier):
         bad = compare(da, db)
         if bad:
             res.violate("C13/process/rerun-differs/%s" % opt, name, "the run from the saved .cfg differs from the original in: %s" % ", ".join(bad[:6]), replay=rp)
+        if gen2 is not None:
+            cc, cd, rc2, rd, dc2, dd = gen2
+            rp2 = dict(first=ca, cmd=cc, rerun=cd)
+            if rc2.returncode != 0 or dc2 is None or "error" in dc2:
+                res.violate("C13/process/second-generation/run-from-own-cfg-failed/%s" % opt, name, "rc=%s %s" % (rc2.returncode, (rc2.stdout + rc2.stderr)[-200:]), replay=rp2)
+            elif rd is None or rd.returncode != 0 or dd is None or "error" in dd:
+                res.violate("C13/process/second-generation/rerun-failed/%s" % opt, name, "rc=%s" % (None if rd is None else rd.returncode), replay=rp2)
+            else:
+                ngen2 += 1
+                res.eval("process gen2 " + name, pl.chash("gen2", name, sorted((k, str(v.get("rowhash"))) for k, v in dc2["datasets"].items())), trivial=False)
+                bad2 = compare(dc2, dd)
+                if bad2:
+                    res.violate("C13/process/second-generation/rerun-differs/%s" % opt, name, "a run started from its own saved .cfg under the same output name with an overriding option: the .cfg left next to the new results does not reproduce them (%s)" % ", ".join(bad2[:6]), replay=rp2)
     res.coverage["process_pairs_whose_original_invocation_does_not_run"] = unrunnable
-    res.bounds_done.append("process level: default + every option singly (%d values, command line and parent config)%s; original run vs run from its saved .cfg, all datasets and attributes bitwise"
+    res.coverage["second_generation_runs_judged"] = ngen2
+    res.bounds_done.append("process level: default + every option singly (%d values, command line and parent config)%s; original run vs run from its saved .cfg, all datasets and attributes bitwise; second generation: rerun from its own .cfg under the same output name with one overriding option, its new .cfg must reproduce it"
                            % (len(singles), " + all pairs of options" if tier == "thorough" else ""))
 
 
